@@ -271,6 +271,7 @@ def run(ctx):
         ctx.ob('DISPATCH', name, okio and bool(conds) and not conv, f.loc(f.body), 'raw %d-byte transfer, swap only under %s, no value conversion %s' % (sz, conds, conv), None)
 
     # ------------------------------------------------------------------ FLUSH
+    ctx.rule('FLUSH-PENDING', 'the close-time flush of a block codec is guarded by a test that samples are pending (counter non-zero): on an exact block boundary nothing is appended', floor=4)
     ctx.rule('FLUSH', 'for every codec init that installs write functions whose worker emits a block only under a fullness test on its private counters: the close hook installed for that codec, '
              'explored in SFM_WRITE mode, reaches the same emitter (frozen extras: ALAC temp-file encoder, DWVW bit reservoir flush)', floor=6)
     def installs(field):
@@ -328,11 +329,73 @@ def run(ctx):
         seenH += 1
         ctx.ob('FLUSH', H, bool(got), hf.loc(hf.body), 'write workers emit via %s when full; close hook in write mode %s' % (sorted(Em), 'reaches %s for the partial block' % sorted(got) if got else
                'NEVER emits the partial block: the tail of the audio would be lost'), None)
+        # FLUSH-PENDING: the flush happens only when something is pending (a flush on an exact block boundary appends a block of padding)
+        if got:
+            calls_ = []
+            for c_ in hf.calls():
+                cal_ = c_.get('callee')
+                if cal_ in got:
+                    calls_.append(c_)
+                elif not cal_:
+                    sl_ = prog.indirect_callee_slot(hf, c_)
+                    if sl_ and ('@%s.%s' % sl_) in got:
+                        calls_.append(c_)
+            for k_, c_ in enumerate(calls_):
+                pend = False
+                desc = []
+                for a_ in hf.ancestors(c_):
+                    if a_['k'] != 'IfStmt' or not hf.within(c_, a_['then']):
+                        continue
+                    def conj(n_):
+                        n_ = hf.unwrap(n_)
+                        if n_.get('k') == 'BinaryOperator' and n_.get('op') == '&&':
+                            return conj(hf.N[n_['kids'][0]]) + conj(hf.N[n_['kids'][1]])
+                        return [n_]
+                    for cj in conj(hf.N[a_['cond']]):
+                        desc.append(hf.s(cj))
+                        if cj.get('k') == 'MemberExpr' and any(t in cj['n'] for t in COUNTERS):
+                            pend = True
+                        elif cj.get('k') == 'BinaryOperator' and cj.get('op') in ('>', '!=', '>=') and hf.unwrap(hf.N[cj['kids'][0]]).get('k') == 'MemberExpr' \
+                                and any(t in hf.unwrap(hf.N[cj['kids'][0]])['n'] for t in COUNTERS):
+                            v_ = hf.unwrap(hf.N[cj['kids'][1]]).get('v')
+                            if (cj['op'] in ('>', '!=') and v_ == 0) or (cj['op'] == '>=' and v_ == 1):
+                                pend = True
+                ctx.ob('FLUSH-PENDING', '%s#%d' % (H, k_ + 1), pend, hf.loc(c_), 'the close-time flush is %s' % ('guarded by a "something is pending" test (%s)' % ' && '.join(desc)[:120] if pend else
+                       'NOT guarded by a test that samples are pending (guards: %s): a stream that ends exactly on a block boundary gets an extra block of padding, the file reports more frames than were written' % (' && '.join(desc)[:120] or 'none')), None)
     for H, need in (('alac_close', 'alac_encode_block'), ('dwvw_close', 'dwvw_encode_data')):
         hf = prog.fn(H)
         r = pe.explore(hf, {'psf->file.mode': E['SFM_WRITE']})
         seenH += 1
         ctx.ob('FLUSH', H, need in r.calls, hf.loc(hf.body), 'frozen instance: close hook %s %s' % ('reaches' if need in r.calls else 'does NOT reach', need), None)
+    # slot-dispatched flushes the discovery above does not pair up (the close hook calls through a private function pointer)
+    for H, file_, slot_ in (('ima_close', 'ima_adpcm.c', ('IMA_ADPCM_PRIVATE_tag', 'encode_block')), ('sds_close', 'sds.c', ('tag_SDS_PRIVATE', 'writer'))):
+        hf = prog.fn(H, file_)
+        calls_ = [c_ for c_ in hf.calls() if not c_.get('callee') and prog.indirect_callee_slot(hf, c_) == slot_]
+        seenH += 1
+        ctx.ob('FLUSH', H, bool(calls_), hf.loc(hf.body), 'frozen instance: close hook %s the block writer through %s.%s' % ('calls' if calls_ else 'does NOT call', slot_[0], slot_[1]), None)
+        for k_, c_ in enumerate(calls_):
+            pend = False
+            desc = []
+            for a_ in hf.ancestors(c_):
+                if a_['k'] != 'IfStmt' or not hf.within(c_, a_['then']):
+                    continue
+
+                def conj2(n_):
+                    n_ = hf.unwrap(n_)
+                    if n_.get('k') == 'BinaryOperator' and n_.get('op') == '&&':
+                        return conj2(hf.N[n_['kids'][0]]) + conj2(hf.N[n_['kids'][1]])
+                    return [n_]
+                for cj in conj2(hf.N[a_['cond']]):
+                    desc.append(hf.s(cj))
+                    if cj.get('k') == 'MemberExpr' and any(t in cj['n'] for t in COUNTERS):
+                        pend = True
+                    elif cj.get('k') == 'BinaryOperator' and cj.get('op') in ('>', '!=', '>=') and hf.unwrap(hf.N[cj['kids'][0]]).get('k') == 'MemberExpr' \
+                            and any(t in hf.unwrap(hf.N[cj['kids'][0]])['n'] for t in COUNTERS):
+                        v_ = hf.unwrap(hf.N[cj['kids'][1]]).get('v')
+                        if (cj['op'] in ('>', '!=') and v_ == 0) or (cj['op'] == '>=' and v_ == 1):
+                            pend = True
+            ctx.ob('FLUSH-PENDING', '%s#%d' % (H, k_ + 1), pend, hf.loc(c_), 'the close-time flush is %s' % ('guarded by a "something is pending" test (%s)' % ' && '.join(desc)[:120] if pend else
+                   'NOT guarded by a test that samples are pending (guards: %s): a stream that ends exactly on a block boundary gets an extra block of padding, the file reports more frames than were written' % (' && '.join(desc)[:120] or 'none')), None)
     ctx.require(seenH >= 6, 'only %d flush pairs found' % seenH)
 
     # ------------------------------------------------------------------ CLOSE-HDR (shared with C04)
